@@ -67,7 +67,7 @@ func main() {
 		defer func() { fmt.Fprintln(os.Stderr, "branch stats:", vrt.BranchStats) }()
 	}
 
-	confEvery := 200
+	confEvery := 400
 	if fl.Thorough() {
 		confEvery = 40
 	}
@@ -126,7 +126,7 @@ func main() {
 					for _, steps := range [][]StepCfg{{a}, {a, st("b", "a")}, {ac, st("b", "a")}} {
 						c := &Config{Steps: steps}
 						add(c, 0, 2000000, sub)
-						if iv == 0 && (thorough || (k >= L && k <= L+1 && L >= 1)) {
+						if iv == 0 && (thorough || (k >= L && k <= L+1 && L >= 1 && L <= 2)) {
 							add(c, 1, capPB, sub)
 							cs := *c
 							cs.DoneSync, cs.OutBytes = true, 10
